@@ -155,14 +155,25 @@ def run(pid, tier, seed, replay=None):
         res.extra_obligations.append((f'leanchecker {mod.LEAN_MODULE}', rc == 0, (out + err)[-500:]))
     broken = (not all(v[0] for v in res.obligations.values())) or res.audit_problems or not (st.extract_ok and st.model_ok)
     # correspondence
+    # (a stage of the harness that ends with an exception has shown nothing: it counts as an obligation that no longer checks — the
+    #  implementation did something the harness was not written for — and the later stages still run)
+    import traceback
+
+    def stage(name, fn, *args):
+        try:
+            fn(*args)
+        except Exception:
+            tb = traceback.format_exc()
+            res.log(f'{name} ended with an exception:\n{tb}')
+            res.extra_obligations.append((f'harness stage ran to completion: {name}', False, tb[-700:]))
     if hasattr(mod, 'corr_ops'):
-        correspond(ctx, mod)
+        stage('correspondence (driver stream)', correspond, ctx, mod)
     if hasattr(mod, 'correspond'):
-        mod.correspond(ctx)
+        stage('correspondence (whole runs)', mod.correspond, ctx)
     ctx.deep = bool(broken or res.corr_disagreements)
     # oracle search on the implementation
     if hasattr(mod, 'oracle'):
-        mod.oracle(ctx)
+        stage('oracle', mod.oracle, ctx)
         unproved = broken or res.corr_disagreements or any(not o[1] for o in res.extra_obligations)
         if unproved and not res.oracle_failures and tier == 'quick' and not ctx.deep:
             # a proof obligation, an inventory or the correspondence no longer checks and the quick search found no failing input:
